@@ -1,5 +1,6 @@
 (* Properties_C10.v — C10: reported byte counts equal the bytes actually produced.  Only statements live here. *)
-Require Import Base Cbor SpecEnc EncoderModel EncoderProofs Schema SchemaProofs Block Exporter ExporterProofs Properties_C09.
+Require Import Base Cbor SpecEnc EncoderModel EncoderProofs Schema SchemaProofs Block Exporter ExporterProofs Properties_C09
+               E2ESpec BlockRead FileProofs SizeProofs.
 Local Open Scope N_scope.
 
 (* every encoder call returns the number of bytes it appended (all 18 operations, every fill level) *)
@@ -46,6 +47,28 @@ Print Assumptions C10_write_block_partial.
 Theorem C10_empty_output : forall x, fresh_inv x -> x_written x = 0 -> snd (rotate false x) = 0 /\ destroy x = [].
 Proof. intros x Hf Hw. pose proof (rotate_empty_output x Hf Hw) as (_ & H1 & H2). auto. Qed.
 Print Assumptions C10_empty_output.
+
+(* PER OUTPUT, OVER WHOLE HISTORIES.  Every buffer / write-block call returns the number of bytes by which the open output grew; a
+   rotation returns what it still appended to the output it closes (the buffered block if exported, the closing break) and that
+   output's size is the sum of everything returned since it was opened ([slen] = bytes handed to the open output so far) *)
+Theorem C10_call_by_call : forall x o hn cur closed, framed x hn cur closed -> adm1 x hn o -> typed_x (fst (xstep x o)) ->
+  match o with
+  | XRot _ => exists out, x_closed (fst (xstep x o)) = out :: x_closed x /\ N.of_nat (length out) = slen x + snd (xstep x o)
+                          /\ slen (fst (xstep x o)) = 0
+  | XAddBp _ | XSetBp _ => slen (fst (xstep x o)) = slen x /\ x_closed (fst (xstep x o)) = x_closed x
+  | _ => slen (fst (xstep x o)) = slen x + snd (xstep x o) /\ x_closed (fst (xstep x o)) = x_closed x
+  end.
+Proof. exact xstep_size. Qed.
+Print Assumptions C10_call_by_call.
+(* hence, for every admissible in-range history from a fresh exporter: the sizes of the outputs closed by rotation, oldest first, are
+   the sums of the values returned between rotations ([sums] adds up return values only — it never looks at a byte), and the output
+   closed by destruction has the last sum plus the single closing byte when it holds a block *)
+Theorem C10_history : forall pre ops, typed_pre pre -> adm0 pre ops -> typed_x (xrun (x_new pre) ops) ->
+  let x := xrun (x_new pre) ops in
+  map (fun o => N.of_nat (length o)) (rev (x_closed x)) = fst (sums (x_new pre) 0 ops) /\
+  N.of_nat (length (destroy x)) = snd (sums (x_new pre) 0 ops) + (if 0 <? x_written x then 1 else 0).
+Proof. exact sizes_history. Qed.
+Print Assumptions C10_history.
 
 Example C10_nonvacuous :
   snd (write_struct FilePreamble ex_preamble) = 99 /\ length (fst (write_struct FilePreamble ex_preamble)) = 99%nat.
